@@ -881,7 +881,7 @@ class _Recorded(Exception):
 BB = 'regions.core.bounding_box'
 
 
-def h_plumbing(kind, aunit, m):
+def h_plumbing(kind, aunit, m, reassign=False):
     from regions import CirclePixelRegion, EllipsePixelRegion, PixCoord
     m.shim(BB, '_is_int', symx.sym_is_int)
     m.shim(BB, 'int', symx.sint)
@@ -906,16 +906,34 @@ def h_plumbing(kind, aunit, m):
         return out(nx, ny)
     if m.sym:
         m.shim(mod, 'np', kernels.NPFacade())
-    cx, cy = m.real('cx'), m.real('cy')
+    if reassign:
+        # the first set of parameters is concrete (any would do): only the re-assigned ones matter for the obligations
+        cx, cy = 0.25, -0.5
+    else:
+        cx, cy = m.real('cx'), m.real('cy')
     if kind == 'circle':
         m.shim(mod, 'circular_overlap_grid', rec_c, both=True)
-        r = m.pos('r', hi=1.2)
+        r = 0.75 if reassign else m.pos('r', hi=1.2)
         reg = CirclePixelRegion(PixCoord(cx, cy), r)
     else:
         m.shim(mod, 'elliptical_overlap_grid', rec_e, both=True)
-        w, h = m.pos('w', hi=1.6), m.pos('h', hi=1.6)
-        ang = None if aunit == 'default' else m.angle('theta', aunit)
+        w, h = (1.25, 0.5) if reassign else (m.pos('w', hi=1.6), m.pos('h', hi=1.6))
+        ang = None if aunit == 'default' else (35 * u.deg if reassign else m.angle('theta', aunit))
         reg = EllipsePixelRegion(PixCoord(cx, cy), w, h, **({} if ang is None else {'angle': ang}))
+    if reassign:
+        # the mask is computed once, then every parameter is re-assigned: the second mask must be that of the new parameters
+        reg.to_mask(mode='exact')
+        rec.clear()
+        cx, cy = m.real('cx2'), m.real('cy2')
+        reg.center = PixCoord(cx, cy)
+        if kind == 'circle':
+            r = m.pos('r2', hi=1.2)
+            reg.radius = r
+        else:
+            w, h = m.pos('w2', hi=1.6), m.pos('h2', hi=1.6)
+            reg.width, reg.height = w, h
+            ang = m.angle('theta2', aunit)
+            reg.angle = ang
     bb = reg.bounding_box
     mask = reg.to_mask(mode='exact')
     m.require('kernel is called', 'out' in rec)
@@ -986,6 +1004,8 @@ def harnesses(tier):
     hs.append(('plumbing/circle', P(h_plumbing, 'circle', None)))
     for au in ('default', 'deg', 'rad'):
         hs.append((f'plumbing/ellipse/{au}', P(h_plumbing, 'ellipse', au)))
+    hs.append(('plumbing/circle/reassigned', P(h_plumbing, 'circle', None, reassign=True)))
+    hs.append(('plumbing/ellipse/reassigned/deg', P(h_plumbing, 'ellipse', 'deg', reassign=True)))
     return hs
 
 
